@@ -72,6 +72,12 @@ CLAIMED["C01"] = (
     "Trusted: numpy's own indexing (the model resolves indices with Python list semantics), the compiled BondList, SInt model, z3. Outside: more than 3 atoms / 2 models / 3 steps, annotation dtypes beyond int/str, NaN coordinates, integer indices outside the valid range (not accepted by numpy).",
     "DESIGN.md §4 C01")
 
+CLAIMED["C17"] = (
+    "solver-driven case split over annotation patterns and bond graphs on the real segmentation code against a per-atom recomputation / union-find; KX: _find_connected lowered from bonds.pyx on a symbolic neighbour table (z3: visited == reachability closure)",
+    "Bounded model checking. Every annotation pattern on 0..4 (5) atoms generated by the 24 possible changes per boundary: starts, counts, masks, starts-for, positions, apply (scalar / float / array-valued with dtype), spread, iteration + concatenation, names equal the per-atom recomputation for residues and chains. Every bond graph on up to 4 (5) atoms: molecules == connected components, find_connected from every root. KX: for every symmetric neighbour table with <= 2 neighbours per atom on 2..3 (4) atoms and every root the lowered recursive search marks exactly the reachable atoms. Resource part: chains of 10..200000 atoms in fresh interpreters.",
+    "Trusted: numpy (searchsorted, repeat ...) in the E-class parts, lowering + runtime for the KX part, z3. Outside: arrays longer than 5 atoms, neighbour tables with > 2 slots. Known finding: recursion depth of find_connected (SIGSEGV on a 200000-atom chain).",
+    "DESIGN.md §4 C17")
+
 NOT_APPLICABLE = {
     "C15": "float results of numpy/LAPACK (linalg solves, trigonometry, argmin over float images): no integer/string logic in front of the C boundary that a solver could reason about; an abstraction over the reals would verify a model of numpy, not the code (DESIGN §6)",
     "C16": "optimality/properness come from np.linalg.svd/det (LAPACK behind FFI) on float32 data; no encodable source; z3 terms cannot pass astype(float32) (DESIGN §6)",
